@@ -190,6 +190,16 @@ func (f *fileData) save() error {
 	return f.fs.setFile(f.path, f)
 }
 
+// saveIfLinked writes this open file back to the store, unless its path was removed or renamed away since it was opened.
+// Like an unlinked os.File, the handle then keeps working on data that no longer has a name.
+func (f *file) saveIfLinked() error {
+	_, err := f.fs.getFileRecord(f.path)
+	if errors.Is(err, hackpadfs.ErrNotExist) {
+		return nil
+	}
+	return f.save()
+}
+
 func (f *fileData) info() hackpadfs.FileInfo {
 	return fileInfo{Record: f, Path: f.path}
 }
@@ -357,7 +367,7 @@ func (f *file) writeBlobAt(op string, p blob.Blob, off int64) (n int, err error)
 	if n != 0 {
 		f.updateModTime()
 	}
-	err = f.save()
+	err = f.saveIfLinked()
 	return
 }
 
@@ -401,7 +411,7 @@ func (f *file) Truncate(size int64) error {
 		}
 	}
 	f.updateModTime()
-	return f.save()
+	return f.saveIfLinked()
 }
 
 func (f *file) ReadDir(n int) ([]hackpadfs.DirEntry, error) {
@@ -467,5 +477,5 @@ func (f *file) Chmod(mode hackpadfs.FileMode) error {
 	}
 	newMode := (f.Mode() & ^chmodBits) | (mode & chmodBits)
 	f.modeOverride = &newMode
-	return f.save()
+	return f.saveIfLinked()
 }
